@@ -528,6 +528,13 @@ def check(run: Run) -> None:
         gids = [g for g in fl.cfg.guards.values() if g.name == "stop_graph"]
         run.sites(len(gids), 1, "stop_graph guard")
         g = gids[0]
+        run.count(1, "C14.g.guard-kind")
+        if g.kind != "unwind":
+            run.finding("C14.g", "run_storage:stop-guard-kind", f"stop_graph is a `{g.kind}` guard, not an UnwindCleanupGuard: its destructor lets a stop failure escape "
+                        "while the original exception is unwinding (std::terminate; the original error never reaches the caller)", loc=f"{EXEC}:{g.line}")
+        elif not fl.nodes_of(lambda n: n.kind == "guard-complete" or (n.kind == "call" and n.name == "complete" and n.recv == "stop_graph")):
+            run.finding("C14.g", "run_storage:stop-guard-not-completed", "stop_graph.complete() is gone: on the normal path the stop runs in the destructor, where a stop "
+                        "failure is swallowed instead of reaching the caller", loc=f"{EXEC}:{g.line}")
         arm = lambda n: n.effect == "arm" and n.guard == g.gid
         gstart = R.call_is(name="start", recv=r"graph|state\.graph\.view\(\)")
         geval = R.call_is(name="evaluate", recv=r"graph|state\.graph\.view\(\)")
@@ -605,10 +612,51 @@ def check(run: Run) -> None:
         if len(hn) < 2:
             run.finding("C14.h", "evaluate_impl:failed-flag", "evaluation_failed:=true must be set in the annotate handlers", loc=GRAPH)
 
+    with run.obligation("C14.i", "K11", "ordered reduce_: when the chain is rebuilt the RETIRED generation is stopped with its own bank and its own child count - both "
+                        "snapshotted before the new generation is committed - so every child of the old generation (also the ones beyond the new, smaller count) is "
+                        "stopped when it is retired, not a tick later or at destruction"):
+        OR_ = "src/hgraph/runtime/ordered_reduce_node.cpp"
+        fi_ = run.tree.file(OR_)
+        cn = R.Canon()
+        n_sw = 0
+        for fd_ in fi_.funcs:
+            if fd_.body is None or "stop_generation" not in fi_.text(fd_.body[0], fd_.body[1]) or fd_.name == "stop_generation":
+                continue
+            fa_ = R.parse(run, fd_)
+            top = fa_.body.stmts
+            store_idx = {f: [i for i, st in enumerate(top) if isinstance(st, C.ExprStmt) and isinstance(st.e, C.Binary) and st.e.op == "=" and cn(st.e.l) == f"storage.{f}"]
+                         for f in ("current_bank", "live_count")}
+            if not store_idx["current_bank"] and not store_idx["live_count"]:
+                continue   # no commit in this function: (current_bank, live_count) read directly IS the live generation
+            decl_at = {d.name: (i, cn(d.init)) for i, st in enumerate(top) if isinstance(st, C.Decl) for d in st.decls if d.name and d.init is not None}
+            for i_c, st in enumerate(top):
+                if not isinstance(st, C.ExprStmt):
+                    continue
+                for c in R.calls(st, "stop_generation"):
+                    n_sw += 1
+                    run.count(1, "C14.i")
+                    for pos, field in ((0, "current_bank"), (1, "live_count")):
+                        a = c.args[pos] if len(c.args) > pos else None
+                        first_store = min(store_idx[field]) if store_idx[field] else len(top)
+                        ok = False
+                        if isinstance(a, C.Id) and a.name in decl_at:
+                            i_d, init = decl_at[a.name]
+                            ok = init == f"storage.{field}" and i_d < first_store
+                        elif a is not None and cn(a) == f"storage.{field}":
+                            ok = i_c < first_store
+                        if not ok:
+                            run.finding("C14.i", f"{fd_.name}:retired-generation-stopped-with-new-{field}", f"{fd_.qual}: stop_generation receives `{cn(a) if a is not None else '?'}` "
+                                        f"for the {field} of the retired generation, which is not the value snapshotted before the commit of the new generation: children of "
+                                        "the old generation are left running when the collection shrinks", loc=fa_.loc(c))
+        run.sites(n_sw, 1, "generation swaps that stop the retired generation")
+
 
 ANYARGS = ("anyargs",)
 
 VARIANTS = [
+    {"id": "i-retired-generation-stopped-with-new-count", "expect": "C14.i", "edits": [{"file": "src/hgraph/runtime/ordered_reduce_node.cpp", "find": "            storage.stop_generation(old_bank, old_count);\n            storage.current_bank = next_bank;\n            storage.live_count = next_count;\n", "replace": "            storage.current_bank = next_bank;\n            storage.live_count = next_count;\n            storage.stop_generation(old_bank, storage.live_count);\n"}]},
+    {"id": "i-twin-stop-after-commit-with-snapshots", "expect": None, "edits": [{"file": "src/hgraph/runtime/ordered_reduce_node.cpp", "find": "            storage.stop_generation(old_bank, old_count);\n            storage.current_bank = next_bank;\n            storage.live_count = next_count;\n", "replace": "            storage.current_bank = next_bank;\n            storage.live_count = next_count;\n            storage.stop_generation(old_bank, old_count);\n"}]},
+    {"id": "g-stop-guard-is-plain-scope-exit", "expect": "C14.g", "edits": [{"file": EXEC, "find": "            auto stop_graph = UnwindCleanupGuard([&] {", "replace": "            auto stop_graph = make_scope_exit([&] {"}, {"file": EXEC, "find": "\n            stop_graph.complete();\n", "replace": "\n"}]},
     {"id": "b-revert-fix-rollback-stop-uncaptured", "expect": "C14.b", "edits": [{"file": GRAPH, "find": "      rollback_failures.capture([&] {\n        NodeView node_view = graph_node_view(runtime, graph.data(), index - 1);", "replace": "      [&] {\n        NodeView node_view = graph_node_view(runtime, graph.data(), index - 1);"}, {"file": GRAPH, "find": "        node_view.stop(state.evaluation_time);\n        failed_notify.release();\n      });", "replace": "        node_view.stop(state.evaluation_time);\n        failed_notify.release();\n      }();"}]},
     {"id": "a-complete-order", "expect": "C14.a", "edits": [{"file": SCOPE, "find": "            active_ = false;\n            fn_();", "replace": "            fn_();\n            active_ = false;"}]},
     {"id": "a-unwind-ge", "expect": "C14.a", "edits": [{"file": SCOPE, "find": "std::uncaught_exceptions() <= uncaught_exceptions_", "replace": "std::uncaught_exceptions() < uncaught_exceptions_"}]},
